@@ -208,6 +208,7 @@ def explore(fn, max_paths=200000, stats=None, catch=(Exception,)):
                     stats.aborted += 1
             except catch as e:  # noqa
                 res = PathResult(ctx, None, e)
+                ctx.exc_origin = _exc_origin(e)
         finally:
             Ctx.cur = None
         work.extend(ctx.work)
@@ -222,6 +223,28 @@ def explore(fn, max_paths=200000, stats=None, catch=(Exception,)):
             global LAST_CTX
             LAST_CTX = ctx  # the path being judged by the harness (Collector.fail takes its model from here when none is given)
             yield res
+
+
+def _exc_origin(e):
+    """file of the innermost frame of the exception's traceback (a call that does not match the callee's signature raises in the
+    CALLER's frame: when that caller is a harness, the exception says that the harness no longer matches the code's interface)"""
+    tb = e.__traceback__
+    last = None
+    while tb is not None:
+        last = tb.tb_frame.f_code.co_filename
+        tb = tb.tb_next
+    return last
+
+
+_SIG_MISMATCH = ("got an unexpected keyword argument", "positional argument", "required keyword-only argument", "got multiple values for argument")
+
+
+def interface_mismatch(exc, origin):
+    """True when `exc` is a signature-mismatch TypeError raised by a call made from the verification machinery itself"""
+    if not isinstance(exc, TypeError) or not any(t in str(exc) for t in _SIG_MISMATCH):
+        return False
+    here = os.path.dirname(os.path.dirname(os.path.abspath(__file__)))
+    return bool(origin) and os.path.abspath(origin).startswith(here + os.sep)
 
 
 # ------------------------------------------------------------------ scalars
